@@ -104,6 +104,169 @@ def check_rewrite_key(c, rule, key, wipe, single, rewrite):
          'value is overwritten with None')
 
 
+def prereq_dedup_rules(c, P):
+    """Prerequisites of one task are de-duplicated by a key that must
+    distinguish different logic over the same outputs (shared C01 / C13)."""
+    ih = c.func('prerequisite', 'Prerequisite.instantaneous_hash')
+    rets = [r.value for r in c.idx.walk(ih.node) if isinstance(r, ast.Return)]
+    parts = []
+    if len(rets) == 1 and isinstance(rets[0], ast.Call) and norm(
+            rets[0].func) == 'hash' and isinstance(rets[0].args[0], ast.Tuple):
+        parts = [norm(e) for e in rets[0].args[0].elts]
+    need = ['self.point', 'self.conditional_expression',
+            'tuple(self._satisfied.keys())']
+    missing = [n for n in need if n not in parts]
+    c.ob(f'{P}.prereq-dedup', f'{ih.fq} :: key covers point, expression and '
+         'output keys', not missing, c.where(ih.node, ih),
+         f'hash of {parts}' if not missing else
+         f'de-duplication key omits {missing}: two dependencies of one task '
+         'over the same outputs but with different logic (e.g. '
+         '`FAM:succeed-all => t` and `FAM:succeed-any => t`) collide and one '
+         'silently replaces the other')
+    ap = c.func('task_state', 'TaskState._add_prerequisites')
+    keyed = [s for s in c.idx.walk(ap.node) if isinstance(s, ast.Assign)
+             and isinstance(s.targets[0], ast.Subscript)
+             and norm(s.targets[0].slice) == 'cpre.instantaneous_hash()']
+    c.floor(f'{P}.prereq-dedup', 'prerequisites keyed by '
+            'instantaneous_hash()', len(keyed), 2)
+    for s in keyed:
+        c.ob(f'{P}.prereq-dedup', c.key(s, ap) + ' stores the prerequisite',
+             norm(s.value) == 'cpre', c.where(s, ap), '')
+    # the expression is set before the key is taken
+    gp = c.func('task_trigger', 'Dependency.get_prerequisite')
+    rr = [r for r in c.idx.walk(gp.node) if isinstance(r, ast.Return)]
+    for r in rr:
+        c.pre(f'{P}.prereq-dedup', gp, r, c.matches(
+            'cpre.set_conditional_expr(self.get_expression(point))'),
+            'expression set before the prerequisite is returned')
+
+
+def retry_lined_up_rules(c, P):
+    """A waiting task with a retry lined up ignores every late message of
+    the failed job, received or polled (shared C09 / C10)."""
+    from sa.pat import AnyOf, StatusIn
+    chk = c.func('task_events_mgr', 'TaskEventsManager._process_message_check')
+    falses = [r for r in c.idx.walk(chk.node) if isinstance(r, ast.Return)
+              and norm(r.value) == 'False']
+    retry = [r for r in falses if not c.holds(
+        r, '!(submit_num == itask.submit_num)')]
+    c.floor(f'{P}.retry-lined-up', 'return False for retry-lined-up',
+            len(retry), 1)
+    vocab = [
+        StatusIn('waiting'), "message == 'expired'",
+        'itask.run_mode == RunMode.LIVE',
+        '0 < itask.try_timers[TimerFlags.SUBMISSION_RETRY].num',
+        '0 < itask.try_timers[TimerFlags.EXECUTION_RETRY].num',
+        'TimerFlags.SUBMISSION_RETRY in itask.try_timers',
+        'TimerFlags.EXECUTION_RETRY in itask.try_timers',
+        '!itask.transient', '!forced',
+    ]
+    for r in retry:
+        c.guard(f'{P}.retry-lined-up', r, [
+            StatusIn('waiting'), "!(message == 'expired')",
+            'itask.run_mode == RunMode.LIVE',
+            AnyOf('0 < itask.try_timers[TimerFlags.SUBMISSION_RETRY].num',
+                  '0 < itask.try_timers[TimerFlags.EXECUTION_RETRY].num',
+                  'TimerFlags.SUBMISSION_RETRY in itask.try_timers',
+                  'TimerFlags.EXECUTION_RETRY in itask.try_timers')], chk)
+        # not narrowed further (e.g. to polled messages only); the
+        # stale-job early return contributes (flag, submit_num) as a
+        # disjunction, whose leaves may have either polarity
+        c.guard_only(f'{P}.retry-lined-up', r, vocab + [
+            "!(message == 'expired')"], chk,
+            'the rejection applies to received and polled messages alike;',
+            composite_extra=['flag == self.FLAG_RECEIVED',
+                             'submit_num == itask.submit_num'])
+
+
+def submit_retry_reset_rules(c, P):
+    """The submission-retry counter is reset only once a job has actually
+    started (or was vacated back to submitted), never on mere acceptance of
+    the submission (shared C02)."""
+    tem = 'task_events_mgr'
+    allowed = {
+        f'{tem}:TaskEventsManager._process_message_started',
+        f'{tem}:TaskEventsManager.process_message',
+    }
+    n = started = 0
+    for s in c.stores(None, 'num'):
+        tgt = norm(s.target.value)
+        if 'try_timers' not in tgt or 'SUBMISSION_RETRY' not in tgt:
+            continue
+        n += 1
+        f = c.owner(s.node)
+        fq = f.fq if f else '<module>'
+        ok = fq in allowed and norm(s.value) == '0'
+        in_started = ok and fq.endswith('._process_message_started')
+        if not ok and f is not None and norm(s.value) == '0':
+            # a private helper whose every caller is the started handler
+            callers = [c.owner(k) for k in c.calls(None, f.node.name)]
+            ok = bool(callers) and all(
+                k is not None and k.fq == f'{tem}:TaskEventsManager.'
+                '_process_message_started' for k in callers)
+            in_started = ok
+        started += bool(in_started)
+        if fq.endswith('.process_message'):
+            ok = ok and c.holds(
+                s.node, 'task_output == VACATION_MESSAGE_PREFIX')
+        c.ob(f'{P}.submit-retry-reset', c.key(s.node, f) + ' [reset of the '
+             'submission try counter]', ok, c.where(s.node, f),
+             'reset when the job started / was vacated' if ok else
+             f'submission try counter reset in {fq}: submissions that are '
+             'accepted but never start no longer consume submission retries, '
+             'so the task can be submitted more than retries+1 times')
+    c.floor(f'{P}.submit-retry-reset', 'resets of the submission try counter',
+            n, 2)
+    c.floor(f'{P}.submit-retry-reset', 'reset on job start', started, 1)
+
+
+def broadcast_prune_rules(c, P):
+    """On cancel, a queued broadcast_states insert is dropped only when
+    point, namespace and key ALL match the cancelled setting (shared
+    C19 / C22)."""
+    w = c.func('workflow_db_mgr', 'WorkflowDatabaseManager.put_broadcast')
+    keys = {'point', 'namespace', 'key'}
+    ok = False
+    detail = 'no recognised keep-filter'
+    for n in c.idx.walk(w.node):
+        ac = c.any_condition(n) if isinstance(n, ast.Call) else None
+        if ac is None:
+            continue
+        cond, it = ac
+        v = c.fold(it) if isinstance(it, (ast.List, ast.Tuple, ast.Set)) \
+            else None
+        if v is None or set(v) != keys:
+            continue
+        txt = norm(cond)
+        kept_if_any_differs = txt == 'insert[key] != broadcast_change[key]'
+        # how is the any(...) used?
+        par = c.idx.parent.get(id(n))
+        neg = isinstance(par, ast.UnaryOp) and isinstance(par.op, ast.Not)
+        if kept_if_any_differs and not neg:
+            ok = True
+            detail = 'insert kept if any of point/namespace/key differs'
+        else:
+            detail = (f'keep-filter is `{"not " if neg else ""}any({txt} for '
+                      f'key in {sorted(v)})`: a queued insert that shares '
+                      'only one of point/namespace/key with the cancelled '
+                      'setting is dropped and never reaches the DB')
+    for n in c.idx.walk(w.node):
+        if isinstance(n, ast.Call) and isinstance(n.func, ast.Name) and \
+                n.func.id == 'all' and n.args and isinstance(
+                    n.args[0], ast.GeneratorExp):
+            g = n.args[0]
+            v = c.fold(g.generators[0].iter)
+            par = c.idx.parent.get(id(n))
+            neg = isinstance(par, ast.UnaryOp) and isinstance(par.op, ast.Not)
+            if v is not None and set(v) == keys and norm(g.elt) == \
+                    'insert[key] == broadcast_change[key]' and neg:
+                ok = True
+                detail = 'insert dropped only if all three match'
+    c.ob(f'{P}.broadcast-prune', f'{w.fq} :: queued inserts dropped only on '
+         'an exact (point, namespace, key) match', ok, c.where(w.node, w),
+         detail)
+
+
 def stop_point_limit_rules(c, P):
     """Runahead limit never passes the stop point (shared by C04 / C07):
     the stored limit is clamped to the stop point *after* the future-offset
